@@ -312,6 +312,23 @@ func genC02Shapes(w *caseWriter, st *pkgStats) int {
 	return n
 }
 
+// C02: identity values that arrive through the environment (version, prerelease, platform, maintainer ...): what is
+// split, defaulted and written is the substituted value
+func genC02EnvShapes(w *caseWriter, st *pkgStats) int {
+	n := 0
+	for _, e := range []map[string]string{
+		{"VERIF_V": "v1.2.3-rc1+git5", "VERIF_P": "", "VERIF_PLAT": "", "VERIF_D": ""},
+		{"VERIF_V": "2.0.0-beta1+git5", "VERIF_P": "", "VERIF_PLAT": "linux", "VERIF_D": "from the environment"},
+		{"VERIF_V": "1.4", "VERIF_P": "rc.2", "VERIF_PLAT": "", "VERIF_D": "two\nlines"},
+		{"VERIF_V": "", "VERIF_P": "", "VERIF_PLAT": "", "VERIF_D": ""},
+	} {
+		n++
+		doc := "name: envpkg\narch: amd64\nversion: ${VERIF_V}\nprerelease: ${VERIF_P}\nplatform: ${VERIF_PLAT}\ndescription: ${VERIF_D}\nmaintainer: M <m@example.com>\nmtime: 2023-11-14T22:13:20Z\nrpm:\n  buildhost: builder.example.org\ncontents:\n  - src: src/f1\n    dst: /usr/bin/envpkg\n"
+		runPkgCase(w, fmt.Sprintf("h-values-through-the-environment-%d", n), pkgDesc{YAML: doc, Formats: rotate(allFormats, n), Env: e}, st, nil)
+	}
+	return n
+}
+
 // C04: names at the edges: first components that start with a dot next to their undotted siblings, names
 // that sort before ".PKGINFO", scripts and other control members whose size is a multiple of 512
 func genC04Shapes(w *caseWriter, st *pkgStats) int {
@@ -579,6 +596,19 @@ func genEdgeShapes(w *caseWriter, st *pkgStats) int {
 	c = baseConfig("overtree2")
 	c.Contents = files.Contents{{Source: "src/f1", Destination: "/opt/overtree2/sub"}, {Source: "src/d", Destination: "/opt/overtree2", Type: files.TypeTree}}
 	emit("file-where-a-later-tree-has-a-directory", c, nil)
+	// a tree whose source path runs THROUGH a symbolic link (a linked build directory): the tree lands at its destination
+	c = baseConfig("vialink")
+	c.Contents = files.Contents{{Source: "src/lnkdir/sub", Destination: "/opt/via-link", Type: files.TypeTree}, {Source: "src/lnkdir/x", Destination: "/opt/via-link-file"}}
+	emit("tree-source-through-a-symbolic-link", c, nil)
+	// a ghost that names a source which is not there (ghosts are not read), without a mode
+	c = baseConfig("ghostsrc")
+	c.Contents = files.Contents{{Source: "src/not-there-ghost.log", Destination: "/var/log/ghostsrc.log", Type: files.TypeRPMGhost}, {Source: "src/f1", Destination: "/usr/bin/ghostsrc"}}
+	emit("ghost-with-a-source-that-is-not-there", c, nil)
+	// sources the kernel makes up (procfs: stat says 0 bytes, a read returns more): sizes a package states count what it ships
+	c = baseConfig("procfs")
+	c.Contents = files.Contents{{Source: "/proc/cpuinfo", Destination: "/opt/procfs/cpuinfo"}, {Source: "/proc/meminfo", Destination: "/opt/procfs/meminfo"}, {Source: "src/f1", Destination: "/opt/procfs/f1"}}
+	n++
+	runPkgCase(w, fmt.Sprintf("e-sources-from-procfs-%d", n), pkgDesc{YAML: marshalConfig(&c), Formats: []string{"ipk", "rpm"}}, st, nil)
 	c = baseConfig("nodate")
 	c.Changelog = "changelog.yaml"
 	c.Contents = files.Contents{{Source: "src/f1", Destination: "/usr/bin/nodate"}}
